@@ -297,10 +297,30 @@ class Gen:
         items += [("push", n), ("push", 256), ("push", r.choice([0, 0, 1])), "CREATE", ("push", 192), "MSTORE"]
         return items
 
+    def symjump_tail(self):
+        """JUMP to a destination computed from an input (--symbolic-jump): a table of landing pads,
+        each returning its own marker; the selector mixes valid destinations, offsets and raw input"""
+        r = self.r
+        n = r.randrange(1, 4)
+        pads = [self.lab() for _ in range(n)]
+        c = r.random()
+        if c < 0.35:
+            sel = self.arg()                                               # raw input word
+        elif c < 0.7:
+            sel = self.arg() + [("push", 1), "AND", ("ref", pads[0]), "ADD"]   # pad0 or pad0+1 (invalid)
+        else:
+            sel = self.arg() + [("push", 3), "AND", ("push", 10), "MUL", ("ref", pads[0]), "ADD"]   # pad k (10 bytes each) or past the last one
+        items = sel + ["JUMP"]
+        for k, l in enumerate(pads):
+            items += [("label", l), ("push", 0xD0 + k), ("push", 64), "MSTORE", ("push", 96), "PUSH0", "RETURN"]
+        return items
+
     def program(self, nstmts=3, depth=2, epilogue=True):
         items = []
         for _ in range(nstmts):
             items += self.stmt(depth)
+        if "symjump" in self.f:
+            return items + self.symjump_tail()
         if epilogue:
             c = self.r.random()
             if c < 0.75:
